@@ -55,7 +55,16 @@ var progs = []progT{
 	{path: "example.com/tools/local.agent", ver: "v0.9.0", gover: "go1.22.1"},
 }
 
-var ctrNames = []string{"c0", "c1", "c2", "c3"}
+// c4: a counter name that is not valid UTF-8 (the library takes any bytes; JSON writes U+FFFD for the stray byte)
+var ctrNames = []string{"c0", "c1", "c2", "c3", "c4\xffz"}
+
+// ctrChance: how often a counter is put into a file (the odd name in few files, so that most weeks stay plain)
+func ctrChance(ci, p int) int {
+	if ci == 4 {
+		return 12
+	}
+	return p
+}
 
 // stack counters (a name with a newline; the part before it is the name the
 // upload config approves): ids stackBase+i
@@ -98,7 +107,7 @@ func (w *world) progID(key string) int {
 
 func ctrID(name string) int64 {
 	for i, n := range ctrNames {
-		if n == name {
+		if n == name || strings.ToValidUTF8(n, "\uFFFD") == name {
 			return int64(i)
 		}
 	}
@@ -623,7 +632,7 @@ func scenario() {
 					ctrs = [][2]int64{{int64(pi), int64(1 + rnd.Intn(5))}, {3, int64(1 + rnd.Intn(5))}}
 				} else if !rnd.Chance(15) { // else: a file without counters
 					for ci := range ctrNames {
-						if rnd.Chance(55) {
+						if rnd.Chance(ctrChance(ci, 55)) {
 							ctrs = append(ctrs, [2]int64{int64(ci), int64(1 + rnd.Intn(5))})
 						}
 					}
@@ -668,7 +677,7 @@ func scenario() {
 			used[p.path+p.ver+now.Format("2006-01-02")] = true
 			var ctrs [][2]int64
 			for ci := range ctrNames {
-				if rnd.Chance(60) {
+				if rnd.Chance(ctrChance(ci, 60)) {
 					ctrs = append(ctrs, [2]int64{int64(ci), int64(10*(j+1) + rnd.Intn(5))})
 				}
 			}
